@@ -348,7 +348,11 @@ func (c *checker) tie(p protoSpec, seed int64, j sharing.ID, lab string, o *obs)
 	if c.a.Driver == "" {
 		return
 	}
-	kase := caseText(p.Name, seed, j, lab)
+	kase := caseTextC(p.Name, seed, j, lab, o.Chunk)
+	keyp := p.Name
+	if o.Chunk > 0 {
+		keyp += "-stingy"
+	}
 	fields := fieldsOf(p, o)
 	var lines []string
 	var after []func(out string)
@@ -376,12 +380,23 @@ func (c *checker) tie(p protoSpec, seed int64, j sharing.ID, lab string, o *obs)
 			r := r
 			idx := byRound[r]
 			obsN := make([]int, len(idx))
+			total, over := 0, 0
 			for i, k := range idx {
 				obsN[i] = t.Reads[k].N
+				total += obsN[i]
+				if o.Chunk > 0 && obsN[i] > o.Chunk {
+					over++
+				}
 			}
 			if len(obsN) > 0 {
 				specText = append(specText, fmt.Sprintf("r%d: %s", r, rle(obsN)))
 			}
+			// the bytes the tape served in this round (the byte log; read boundaries do not matter)
+			start := 0
+			if len(idx) > 0 {
+				start = t.Reads[idx[0]].Off
+			}
+			served := t.Bytes[start : start+total]
 			var rows []drawRow
 			// (ii) draw count
 			ask(fmt.Sprintf("D %s %d %s", cfg.fam, r, cfg.args()), func(out string) {
@@ -392,16 +407,31 @@ func (c *checker) tie(p protoSpec, seed int64, j sharing.ID, lab string, o *obs)
 					return
 				}
 				want := make([]int, len(rows))
+				wantTotal := 0
 				for i := range rows {
 					want[i] = rows[i].n
+					wantTotal += rows[i].n
 				}
-				if rle(want) != rle(obsN) {
-					c.mismatch("corr", fmt.Sprintf("%s-draw-count", p.Name),
-						fmt.Sprintf("party %d round %d: the tape served reads of [%s] bytes, the draw specification (%s %s) says [%s]", uint64(id), r, rle(obsN), cfg.fam, cfg.args(), rle(want)),
-						kase, "C07 (ii) draw count = draws table (coq/model/Draws.v draws)", false)
-					// the offset tie below is still evaluated against the specified offsets
+				what := "C07 (ii) draw count = draws table (coq/model/Draws.v draws)"
+				if o.Chunk == 0 {
+					if rle(want) != rle(obsN) {
+						c.mismatch("corr", fmt.Sprintf("%s-draw-count", keyp),
+							fmt.Sprintf("party %d round %d: the tape served reads of [%s] bytes, the draw specification (%s %s) says [%s]", uint64(id), r, rle(obsN), cfg.fam, cfg.args(), rle(want)),
+							kase, what, false)
+						// the offset tie below is still evaluated against the specified offsets
+					}
+				} else {
+					// a source that serves at most Chunk bytes per Read: the same bytes must be drawn in total
+					if wantTotal != total {
+						c.mismatch("corr", fmt.Sprintf("%s-draw-count", keyp),
+							fmt.Sprintf("party %d round %d: a source serving at most %d bytes per Read served %d bytes in %d reads, the draw specification (%s %s) says %d bytes [%s] (a Read whose count is ignored leaves the rest of the value undrawn)", uint64(id), r, o.Chunk, total, len(obsN), cfg.fam, cfg.args(), wantTotal, rle(want)),
+							kase, what, false)
+					}
+					if over > 0 {
+						c.mismatch("corr", "harness-chunk", fmt.Sprintf("%d reads exceed the chunk size %d", over, o.Chunk), kase, "C07 harness", false)
+					}
 				}
-				c.res.Count(p.Name+"/draws", fmt.Sprintf("%s party=%d round=%d", kase, uint64(id), r), len(obsN) > 0)
+				c.res.Count(keyp+"/draws", fmt.Sprintf("%s party=%d round=%d", kase, uint64(id), r), len(obsN) > 0)
 			})
 			// (i) offset tie for the rounds that carry tied fields
 			need := false
@@ -410,16 +440,12 @@ func (c *checker) tie(p protoSpec, seed int64, j sharing.ID, lab string, o *obs)
 					need = true
 				}
 			}
-			if !need || len(idx) == 0 {
+			if !need {
 				continue
 			}
-			// the bytes served in this round, capped at what the tied fields can reach
-			var tape []byte
-			for _, k := range idx {
-				if len(tape) > 4096 {
-					break
-				}
-				tape = append(tape, t.Slice(k)...)
+			tape := served
+			if len(tape) > 8192 { // the tied fields are drawn first in every round
+				tape = tape[:8192]
 			}
 			ask(fmt.Sprintf("P %s %s %d %s %s", qhex, cfg.fam, r, cfg.args(), vh.Hex(tape)), func(out string) {
 				if rows == nil {
@@ -430,33 +456,38 @@ func (c *checker) tie(p protoSpec, seed int64, j sharing.ID, lab string, o *obs)
 					if f.Party != id || f.DrawRound != r || f.Kind == "commit" {
 						continue
 					}
-					what := "C07 (i) offset tie: field = model sample of the recorded read (sample_depends_on_tape / first_msg_injective)"
-					k := -1
+					what := "C07 (i) offset tie: field = model sample of the bytes served at the specified offset (sample_depends_on_tape / first_msg_injective)"
+					k, off := -1, 0
 					for i := range rows {
 						if rows[i].site == f.Site {
 							k = i
 							break
 						}
+						off += rows[i].n
 					}
 					if k < 0 || k >= len(vals) {
-						c.mismatch("corr", p.Name+"-offset-tie", fmt.Sprintf("site %s of field %s is not in the draw specification of round %d", f.Site, f.Name, r), kase, what, false)
-						continue
-					}
-					if k >= len(idx) {
-						// the value cannot come from the specified read: the tape served no such read
-						c.mismatch("corr", p.Name+"-offset-tie", fmt.Sprintf("party %d: field %s = %s is specified to come from site %s = read %d of round %d, but the party's tape served only %d reads in that round", uint64(id), f.Name, vh.Hex(f.Got), f.Site, k, r, len(idx)), kase, what, true)
+						c.mismatch("corr", keyp+"-offset-tie", fmt.Sprintf("site %s of field %s is not in the draw specification of round %d", f.Site, f.Name, r), kase, what, false)
 						continue
 					}
 					if f.Got == nil {
-						c.mismatch("corr", p.Name+"-offset-tie", fmt.Sprintf("field %s of party %d not found on the wire", f.Name, uint64(id)), kase, what, false)
+						c.mismatch("corr", keyp+"-offset-tie", fmt.Sprintf("field %s of party %d not found on the wire", f.Name, uint64(id)), kase, what, false)
 						continue
 					}
-					read := t.Slice(idx[k])
+					n := rows[k].n
+					if off+n > len(served) {
+						// the value cannot come from the specified bytes: the tape never served them
+						c.mismatch("corr", keyp+"-offset-tie", fmt.Sprintf("party %d: field %s = %s is specified to come from site %s = bytes [%d,%d) of round %d, but the party's tape served only %d bytes in that round", uint64(id), f.Name, vh.Hex(f.Got), f.Site, off, off+n, r, len(served)), kase, what, true)
+						continue
+					}
+					if off+n > len(tape) {
+						continue
+					}
+					read := served[off : off+n]
 					var modelWant, goWant []byte
 					switch f.Kind {
 					case "point":
 						if !strings.HasPrefix(vals[k], "s:") || o.BaseMul == nil {
-							c.mismatch("corr", p.Name+"-offset-tie", fmt.Sprintf("model value %q for point field %s", vals[k], f.Name), kase, what, false)
+							c.mismatch("corr", keyp+"-offset-tie", fmt.Sprintf("model value %q for point field %s", vals[k], f.Name), kase, what, false)
 							continue
 						}
 						ms := vh.UnZHex(vals[k][2:])
@@ -465,7 +496,7 @@ func (c *checker) tie(p protoSpec, seed int64, j sharing.ID, lab string, o *obs)
 						goWant = o.BaseMul(leModQ(read, o.Order))
 					case "raw":
 						if !strings.HasPrefix(vals[k], "r:") {
-							c.mismatch("corr", p.Name+"-offset-tie", fmt.Sprintf("model value %q for raw field %s", vals[k], f.Name), kase, what, false)
+							c.mismatch("corr", keyp+"-offset-tie", fmt.Sprintf("model value %q for raw field %s", vals[k], f.Name), kase, what, false)
 							continue
 						}
 						modelWant = vh.UnHex(vals[k][2:])
@@ -473,17 +504,19 @@ func (c *checker) tie(p protoSpec, seed int64, j sharing.ID, lab string, o *obs)
 					}
 					okModel, okGo := bytes.Equal(modelWant, f.Got), bytes.Equal(goWant, f.Got)
 					if !okModel || !okGo {
-						c.mismatch("corr", p.Name+"-offset-tie",
-							fmt.Sprintf("party %d: %s = %s, but the value drawn at site %s (read %d of round %d, %d bytes at offset %d) gives %s (model) / %s (recomputed)", uint64(id), f.Name, vh.Hex(f.Got), f.Site, k, r, len(read), t.Reads[idx[k]].Off, vh.Hex(modelWant), vh.Hex(goWant)),
+						c.mismatch("corr", keyp+"-offset-tie",
+							fmt.Sprintf("party %d: %s = %s, but the value drawn at site %s (draw %d of round %d: %d bytes at offset %d of the bytes served in that round, %d bytes per Read at most) gives %s (model) / %s (recomputed)", uint64(id), f.Name, vh.Hex(f.Got), f.Site, k, r, n, off, o.Chunk, vh.Hex(modelWant), vh.Hex(goWant)),
 							kase, what, !okGo)
 					}
-					c.res.Count(p.Name+"/field", fmt.Sprintf("%s %s party=%d", kase, f.Name, uint64(id)), true)
+					c.res.Count(keyp+"/field", fmt.Sprintf("%s %s party=%d", kase, f.Name, uint64(id)), true)
 				}
 			})
 		}
-		key := fmt.Sprintf("%s (%s %s) pos=%d", p.Name, cfg.fam, cfg.args(), pos)
-		if _, ok := c.specs[key]; !ok {
-			c.specs[key] = strings.Join(specText, "; ")
+		if o.Chunk == 0 {
+			key := fmt.Sprintf("%s (%s %s) pos=%d", p.Name, cfg.fam, cfg.args(), pos)
+			if _, ok := c.specs[key]; !ok {
+				c.specs[key] = strings.Join(specText, "; ")
+			}
 		}
 	}
 	outs, err := vh.Driver(c.a.Driver, lines)
@@ -500,6 +533,10 @@ func (c *checker) tie(p protoSpec, seed int64, j sharing.ID, lab string, o *obs)
 // jointTie: the joint value equals the model's combination of the parties' samples, in the exponent.
 func (c *checker) jointTie(p protoSpec, kase string, o *obs, scal map[sharing.ID]map[string]*big.Int, qhex string) {
 	what := "C07 joint value = combination of the parties' samples (joint_value_depends)"
+	keyp := p.Name
+	if o.Chunk > 0 {
+		keyp += "-stingy"
+	}
 	collect := func(site string) ([]string, bool) {
 		var ks []string
 		for _, id := range o.IDs {
@@ -580,7 +617,7 @@ func (c *checker) jointTie(p protoSpec, kase string, o *obs, scal map[sharing.ID
 	for i, t := range use {
 		got, want := t.check(vh.UnZHex(outs[i]))
 		if got != want {
-			c.mismatch("corr", p.Name+"-joint-tie", fmt.Sprintf("joint value %s, but the %s of the parties' %s samples gives %s", got, t.op, t.site, want), kase, what, false)
+			c.mismatch("corr", keyp+"-joint-tie", fmt.Sprintf("joint value %s, but the %s of the parties' %s samples gives %s", got, t.op, t.site, want), kase, what, false)
 		}
 		c.res.Count(p.Name+"/joint", kase+" "+t.site, true)
 	}
